@@ -369,7 +369,7 @@ impl Part for Multi {
         "multi-window"
     }
     fn cases(&self, tier: Tier) -> u32 {
-        tier.pick(20_000, 400_000)
+        tier.pick(40_000, 400_000)
     }
     fn strategy(&self, tier: Tier) -> BoxedStrategy<Case> {
         let max_ev = tier.pick(24usize, 40usize);
@@ -467,7 +467,7 @@ impl Part for JoinKeys {
         "join-keys"
     }
     fn cases(&self, tier: Tier) -> u32 {
-        tier.pick(6_000, 150_000)
+        tier.pick(15_000, 150_000)
     }
     fn strategy(&self, tier: Tier) -> BoxedStrategy<Case> {
         let max_ev = tier.pick(24usize, 40usize);
@@ -584,7 +584,7 @@ impl Part for StaleMix {
         "stale-mix"
     }
     fn cases(&self, tier: Tier) -> u32 {
-        tier.pick(4_000, 100_000)
+        tier.pick(10_000, 100_000)
     }
     fn strategy(&self, _tier: Tier) -> BoxedStrategy<Case> {
         (
